@@ -26,6 +26,9 @@ def _variants(pid):
         out.append((os.path.basename(d), p, expect))
     for p in sorted(glob.glob(os.path.join(VERIF, 'selftest', 'mutants', pid + '-*.diff'))):
         out.append((os.path.basename(p)[:-5], p, True))
+    # behaviour-preserving refactorings of the code this property is anchored in: must NOT be reported
+    for p in sorted(glob.glob(os.path.join(VERIF, 'selftest', 'benign', pid + '-*.diff'))):
+        out.append(('benign:' + os.path.basename(p)[:-5], p, False))
     return out
 
 
@@ -59,10 +62,12 @@ def run(pid, tier):
     finally:
         shutil.rmtree(base, ignore_errors=True)
     rep = [x for x in res if x.get('expected_to_break', True) and x['status'] in ('reported', 'not-reported')]
-    out = {'variants': len(res), 'breaking_variants_analysed': len(rep), 'reported': sum(1 for x in rep if x['status'] == 'reported'), 'results': res}
+    ben = [x for x in res if x['variant'].startswith('benign:') and x['status'] in ('reported', 'not-reported')]
+    out = {'variants': len(res), 'breaking_variants_analysed': len(rep), 'reported': sum(1 for x in rep if x['status'] == 'reported'),
+           'benign_refactorings_analysed': len(ben), 'benign_refactorings_reported': sum(1 for x in ben if x['status'] == 'reported'), 'results': res}
     for x in res:
         if x.get('expected_to_break', True) and x['status'] == 'not-reported':
             print('NOTE: sensitivity run - breaking variant %s is not reported by the %s rules' % (x['variant'], pid))
         if not x.get('expected_to_break', True) and x['status'] == 'reported':
-            print('NOTE: sensitivity run - variant %s no longer breaks the property (superseded by a fix) but is reported' % x['variant'])
+            print('NOTE: sensitivity run - variant %s %s but is reported' % (x['variant'], 'preserves behaviour' if x['variant'].startswith('benign:') else 'no longer breaks the property (superseded by a fix)'))
     return out
